@@ -144,7 +144,7 @@ func buildC18(n int, iss []int, variant int) World {
 func TestC18(t *testing.T) {
 	r := core.Start(t, "C18")
 	defer r.Finish()
-	r.Rule = "(a) exhaustive: every issuer function on n <= 3 (quick) / n <= 5 (thorough) labelled entities, each entity having no issuer, any entity including itself, or an undefined name ((n+2)^n graphs), laid out over nested directories with config suffixes in mixed letter case and explicit or file-derived aliases (two layout variants per graph). (b) sampled: up to 6 entities with alias collisions (explicit/explicit, explicit/file name, file name/file name in different directories, same stem with different suffix in one directory), cycles hanging off valid trees, and bystander files (other suffixes, binary junk / lists / version-less YAML under config suffixes, stray PEM). explicit aliases containing blanks, slashes, dots and '../' (two aliases with the same last path element are distinct; the bare last element names nobody). Backends: in-memory, gopki MapFs, NativeFs (there also with some configs being symbolic links to files kept outside the directory). Oracle: graph analysis in the harness (duplicate alias, dangling issuer, cycle incl. self-loop) => the run must fail and the directory snapshot is unchanged; otherwise the run succeeds, exactly the files '<config path without extension>.pem' appear, issuer DNs match the configured issuer's subject, everything else is byte-identical. Non-trivial = defect hanging off an otherwise valid tree, or a valid forest spread over >= 2 directories; distinct by rendered tree."
+	r.Rule = "(a) exhaustive: every issuer function on n <= 3 (quick) / n <= 5 (thorough) labelled entities, each entity having no issuer, any entity including itself, or an undefined name ((n+2)^n graphs), laid out over nested directories with config suffixes in mixed letter case and explicit or file-derived aliases (two layout variants per graph). (b) sampled: up to 6 entities with alias collisions (explicit/explicit, explicit/file name, file name/file name in different directories, same stem with different suffix in one directory), cycles hanging off valid trees, and bystander files (other suffixes, binary junk / lists / version-less YAML under config suffixes, stray PEM). explicit aliases containing blanks, slashes, dots and '../' (two aliases with the same last path element are distinct; the bare last element names nobody; so are aliases and issuer names that differ in a leading or trailing blank); leftover artifacts consisting of a cut-off or non-base64 hash line. Backends: in-memory, gopki MapFs, NativeFs (there also with some configs being symbolic links to files kept outside the directory). Oracle: graph analysis in the harness (duplicate alias, dangling issuer, cycle incl. self-loop) => the run must fail and the directory snapshot is unchanged; otherwise the run succeeds, exactly the files '<config path without extension>.pem' appear, issuer DNs match the configured issuer's subject, everything else is byte-identical. Non-trivial = defect hanging off an otherwise valid tree, or a valid forest spread over >= 2 directories; distinct by rendered tree."
 	r.Assumptions = []string{"two configs with the same stem in one directory but different explicit aliases are not generated (both map to one .pem; the property does not say who wins)"}
 	wrap := func(c c18Case) *core.Failure {
 		f, class := checkC18(c)
@@ -162,6 +162,12 @@ func TestC18(t *testing.T) {
 		r.Case(key, "class:"+class, "backend:"+c.Backend)
 		if len(c.Links) > 0 {
 			r.Classes["symlinked-configs"]++
+		}
+		for i := range c.W.Ents {
+			if _, ok := c.W.Files[core.PemPath(c.W.Ents[i].File)]; ok {
+				r.Classes["artifact-stub-with-broken-hash-line"]++
+				break
+			}
 		}
 		r.Sample("class:"+class, map[string]any{"configs": c.W.Texts(), "bystanders": sortedKeys(c.W.Files)})
 		return f
@@ -207,6 +213,7 @@ func TestC18(t *testing.T) {
 	}
 	r.Extra["exhaustive_part"] = fmt.Sprintf("all issuer functions on up to %d entities; collisions, larger graphs and bystanders are sampled", maxN)
 	gen := func(t *rapid.T) c18Case {
+		stubs := 0
 		n := rapid.IntRange(2, 6).Draw(t, "n")
 		iss := make([]int, n)
 		// mostly a valid forest ...
@@ -218,7 +225,7 @@ func TestC18(t *testing.T) {
 		}
 		// ... with one defect attached
 		defect := rapid.SampledFrom([]string{"none", "none", "cycle", "self", "dangling", "alias-explicit-explicit", "alias-explicit-file", "alias-file-file", "alias-same-stem",
-			"slash-aliases-distinct", "slash-alias-last-element-dangling"}).Draw(t, "defect")
+			"slash-aliases-distinct", "slash-alias-last-element-dangling", "blank-aliases-distinct", "blank-issuer-dangling"}).Draw(t, "defect")
 		switch defect {
 		case "cycle":
 			if n >= 3 {
@@ -252,6 +259,20 @@ func TestC18(t *testing.T) {
 			case "slash-aliases-distinct":
 				// same last element, different aliases: no collision
 				w.Ents[a].Alias, w.Ents[b].Alias = "prod/shared", "test/shared"
+			case "blank-aliases-distinct":
+				// aliases are exact strings: a trailing or leading blank makes another alias
+				blank := rapid.SampledFrom([]string{" ", "\t", "  "}).Draw(t, "blank")
+				w.Ents[a].Alias = "ca"
+				if rapid.Bool().Draw(t, "blank-front") {
+					w.Ents[b].Alias = blank + "ca"
+				} else {
+					w.Ents[b].Alias = "ca" + blank
+				}
+			case "blank-issuer-dangling":
+				w.Ents[a].Alias = "signer"
+				if iss[b] == a || b > a {
+					iss[b] = a
+				}
 			case "slash-alias-last-element-dangling":
 				// "shared" is not "lab/shared": whoever names it as issuer names nobody
 				w.Ents[a].Alias = "lab/shared"
@@ -263,7 +284,7 @@ func TestC18(t *testing.T) {
 				w.Ents[a].File = "same/" + c18Name(a) + ".yaml"
 				w.Ents[b].File = "same/" + c18Name(a) + rapid.SampledFrom([]string{".json", ".yml", ".YAML"}).Draw(t, "stemext")
 			}
-			if strings.HasPrefix(defect, "alias-") || strings.HasPrefix(defect, "slash-") {
+			if strings.HasPrefix(defect, "alias-") || strings.HasPrefix(defect, "slash-") || strings.HasPrefix(defect, "blank-") {
 				// keep issuer references pointing at existing aliases where possible
 				for i := range w.Ents {
 					if iss[i] >= 0 && iss[i] < n {
@@ -275,6 +296,9 @@ func TestC18(t *testing.T) {
 		if defect == "slash-alias-last-element-dangling" && a != b && iss[b] == a {
 			w.Ents[b].Issuer = "shared"
 		}
+		if defect == "blank-issuer-dangling" && a != b && iss[b] == a {
+			w.Ents[b].Issuer = rapid.SampledFrom([]string{"signer ", " signer", "signer\t"}).Draw(t, "blank-issuer")
+		}
 		c := c18Case{W: w, Backend: rapid.SampledFrom([]string{"memfs", "memfs", "mapfs", "native"}).Draw(t, "backend")}
 		if c.Backend == "native" && rapid.Bool().Draw(t, "links") {
 			for i := range w.Ents {
@@ -284,11 +308,19 @@ func TestC18(t *testing.T) {
 			}
 		}
 		c.W.Files = map[string][]byte{}
+		for i := range w.Ents {
+			// leftovers of an interrupted earlier run or a hand edit: an artifact that is only a (cut-off / non-base64) hash line
+			if rapid.IntRange(0, 7).Draw(t, fmt.Sprintf("stub%d", i)) == 0 {
+				c.W.Files[core.PemPath(w.Ents[i].File)] = []byte(rapid.SampledFrom([]string{"#HASH:@@not base64@@\n", "#HASH:c3RhbGU", "#HASH:\n", "#HASH:c3RhbGU=\n", "#HA", ""}).Draw(t, fmt.Sprintf("stubv%d", i)))
+				stubs++
+			}
+		}
 		for _, bs := range c18Bystanders {
 			if rapid.IntRange(0, 2).Draw(t, "by-"+bs.path) == 0 {
 				c.W.Files[bs.path] = []byte(bs.data)
 			}
 		}
+		_ = stubs
 		return c
 	}
 	core.Rapid(r, "graph", r.Pick(1500, 300000), gen, wrap)
